@@ -4,7 +4,7 @@ import QR.Proofs.Finite
 import QR.Proofs.ReadBack
 import QR.Props.C03
 import QR.Props.C09
-import QR.Proofs.SourceTie
+import QR.Proofs.SourceTieC05
 import QR.Proofs.Pinned
 /-
 C05 - function patterns, geometry and data placement of every symbol.
@@ -227,7 +227,7 @@ theorem C05_source_structure :
     Gen.Code.makeImpl_calls = ["self.setup_position_probe_pattern", "self.setup_position_probe_pattern",
       "self.setup_position_probe_pattern", "self.setup_position_adjust_pattern", "self.setup_timing_pattern",
       "self.setup_type_info", "self.setup_type_number", "util.create_data", "self.map_data"] :=
-  QR.SourceTie.structure_eq.1
+  QR.SourceTie.structure_makeImpl
 
 /-- the Python functions this property's model mirrors have, in /repo's current working tree, exactly the normalised
     ASTs the model was written and validated against (fingerprints regenerated by T1 on every run) -/
